@@ -67,6 +67,13 @@ func buildChain(sc *scenario) (*lib.Chain, error) {
 			}
 			plan.Flags = flags
 		}
+		if hs.Reencoded {
+			if err := advanceReencoded(c, plan); err != nil {
+				c.Close()
+				return nil, fmt.Errorf("advance (re-encoded): %w", err)
+			}
+			continue
+		}
 		if err := c.Advance(plan); err != nil {
 			c.Close()
 			return nil, fmt.Errorf("advance: %w", err)
@@ -581,4 +588,40 @@ func (f *forger) beyond(ps *peerSpec, h int64) *lie {
 		panic(err)
 	}
 	return &lie{Kind: "beyond-forged", Block: bp, Height: h}
+}
+
+// reencode returns the block's part set over a non-canonical but valid encoding: field 15 (unknown to the Block
+// message, skipped by the decoder) appended to the canonical bytes.
+func reencode(b *types.Block) *types.PartSet {
+	pb, err := b.ToProto()
+	if err != nil {
+		panic(err)
+	}
+	bz, err := pb.Marshal()
+	if err != nil {
+		panic(err)
+	}
+	return types.NewPartSetFromData(append(bz, 0x78, 0x01), types.BlockPartSizeBytes)
+}
+
+// advanceReencoded is lib.Chain.Advance for a height whose proposer gossiped the re-encoded bytes: the validators
+// precommit BlockID{hash, header of THOSE parts}, the store keeps those parts, the state's LastBlockID carries that
+// header (what consensus.finalizeCommit does with cs.ProposalBlockParts).
+func advanceReencoded(c *lib.Chain, plan *lib.HeightPlan) error {
+	h := c.NextHeight()
+	c.App.Mu.Lock()
+	c.App.Plans[h] = plan
+	c.App.Mu.Unlock()
+	block, _ := c.BuildNext(plan)
+	parts := reencode(block)
+	blockID := types.BlockID{Hash: block.Hash(), PartSetHeader: parts.Header()}
+	commit := lib.SignCommit(c.State.ChainID, h, plan.Round, blockID, c.State.Validators, plan.Flags, block.Time, plan.TsOffsets)
+	c.BlockStore.SaveBlock(block, parts, commit)
+	st, retain, err := c.Exec.ApplyBlock(c.State, blockID, block)
+	if err != nil {
+		return err
+	}
+	c.State = st
+	c.Blocks[h], c.Parts[h], c.IDs[h], c.Commits[h], c.States[h], c.Retain[h] = block, parts, blockID, commit, st.Copy(), retain
+	return nil
 }
